@@ -5,6 +5,13 @@ correspondence : the real IntegratorLearner is driven with parallel-runner-like 
                  verdicts it reached (instrumented at run time, see impl_integrator.py) are fed
                  to the model; comparison inside Coq (vm_compute) after every operation
 search         : from-scratch oracle of the property text on the real class
+sum clause     : igral / err are compared with the sums over approximating_intervals after every operation
+                 (`finite_sum_ok`): up to summation rounding far below the largest float, EXACTLY (value reachable by
+                 float addition in some order) where the sum of magnitudes reaches it -- the halves / quarters carry
+                 float max / 2, / 4 while a straggler keeps the first rule incomplete, the sum is exactly float max and
+                 must be reported as float max; inf only if the sum really overflows.  Oracle only: the model has no
+                 numerics; the straggler histories go through the correspondence like all others (structure,
+                 approximating set, hand-outs)
 F1             : three internal-error paths of the unchanged tree (priority_split not kept inside
                  ivals); the model has a parameter `repaired`; which variant the real code
                  corresponds to is decided by running the F1 witness histories
@@ -13,7 +20,9 @@ from __future__ import annotations
 
 import json
 import math
+import sys
 import warnings
+from fractions import Fraction
 
 from .. import coqio as C
 from .. import impl_integrator as I
@@ -88,7 +97,7 @@ class Oracle:
         self.told: set[float] = set()
         self.covering = False
         self.illegal = False      # a value was delivered for an abscissa that was never requested (outside C07)
-        self.checked = {"partition": 0, "foreign": 0, "sums": 0}
+        self.checked = {"partition": 0, "foreign": 0, "sums": 0, "sums_at_float_max": 0}
 
     def err(self, sig, msg):
         if len(self.errors) < 5:
@@ -193,15 +202,83 @@ class Oracle:
                     s = sum(terms)
                     ok = (math.isnan(s) and math.isnan(got)) or s == got
                 else:
-                    s = math.fsum(terms)
-                    if name == "err" and s > 1.7976931348623157e308:
-                        ok = math.isinf(got)
-                    else:
-                        scale = math.fsum(abs(t) for t in terms)
-                        ok = abs(got - s) <= 1e-12 * scale or (math.isinf(got) and scale > 1e308)
+                    ok, at_max = finite_sum_ok(terms, got)
+                    self.checked["sums_at_float_max"] += at_max
                 if not ok:
                     self.err(f"C07:{name}_sum", f"{name}={got!r} but the sum over approximating_intervals is {terms[:4]}...")
             self.checked["sums"] += 1
+
+
+FMAX = sys.float_info.max
+MAX_ORDERS = 5040
+
+
+def _round(q: Fraction) -> float:
+    """The rational q rounded to the nearest float (overflow -> +-inf)."""
+    try:
+        return q.numerator / q.denominator
+    except OverflowError:
+        return math.inf if q > 0 else -math.inf
+
+
+def _all_float_sums(terms):
+    """Results of plain left-to-right float addition of `terms` over EVERY distinct order,
+    or None when there are more than MAX_ORDERS distinct orders."""
+    cnt: dict[float, int] = {}
+    for t in terms:
+        cnt[t] = cnt.get(t, 0) + 1
+    orders = math.factorial(len(terms))
+    for m in cnt.values():
+        orders //= math.factorial(m)
+    if orders > MAX_ORDERS:
+        return None
+    out = set()
+
+    def go(s, left):
+        if not left:
+            out.add(s)
+            return
+        for t in cnt:
+            if cnt[t]:
+                cnt[t] -= 1
+                go(s + t, left - 1)
+                cnt[t] += 1
+    go(0.0, len(terms))
+    return out
+
+
+def finite_sum_ok(terms, got):
+    """'the reported integral / error is the sum over the intervals in use', all terms finite.
+
+    Returns (ok, at_max).  Far below the largest float no order of summation can overflow: the reported value
+    must be finite and equal the exact sum up to summation rounding (1e-12 of the sum of magnitudes).  When the sum of
+    the magnitudes reaches the largest float (the first interval carries err = float max and a split gives exactly
+    half to each child, so the errors of the intervals in use add up to EXACTLY float max while no ancestor rule is
+    complete) the comparison is exact: the reported value must be what float addition of the terms gives in some order
+    (or the correctly rounded exact sum); in particular float max itself is reported as float max, and inf only when
+    the sum really exceeds the largest float."""
+    n = len(terms)
+    try:
+        scale = math.fsum(abs(t) for t in terms)
+    except OverflowError:
+        scale = math.inf
+    if scale < 1e307:
+        return math.isfinite(got) and abs(got - math.fsum(terms)) <= 1e-12 * scale, 0
+    exact = sum(Fraction(t) for t in terms)
+    mags = sum(Fraction(abs(t)) for t in terms)
+    close = math.isfinite(got) and abs(Fraction(got) - exact) <= mags / 10 ** 12
+    if mags <= Fraction(FMAX) * (1 - Fraction(n + 2, 2 ** 52)):
+        return close, 0                      # no partial sum can overflow, in any order, plain or compensated
+    reach = _all_float_sums(terms)
+    if reach is None:                        # too many distinct orders to enumerate: only closeness is decidable
+        return close or math.isinf(got), 1
+    reach.add(_round(exact))
+    if math.isnan(got):
+        return any(math.isnan(r) for r in reach), 1
+    if got in reach:
+        return True, 1
+    # a compensated summation may differ from every plain order in the last place, never in finiteness
+    return close and any(math.isfinite(r) for r in reach), 1
 
 
 def drive(cfg, rng=None, mode=None, ops=None, max_tells=300, max_ops=160, **kw):
@@ -227,6 +304,8 @@ def drive(cfg, rng=None, mode=None, ops=None, max_tells=300, max_ops=160, **kw):
         warnings.simplefilter("ignore")
         if ops is not None:
             I.drive_concrete(rec, ops)
+        elif mode == "straggler":
+            I.drive_straggler(rec, rng, max_tells, max_ops, **kw)
         else:
             I.drive_schedule(rec, rng, mode, max_tells, max_ops, **kw)
     return rec, orc
@@ -331,7 +410,7 @@ def run(chk: Check) -> int:
     hist = {"family": {}, "mode": {}, "end": {}, "len": {}, "ops": {"ask": 0, "tell": 0, "tell_foreign": 0}}
     tot = {"multi": 0, "splits": 0, "nested": 0, "removes": 0, "forced": 0}
     f1_seen = set()
-    orc_checked = {"partition": 0, "foreign": 0, "sums": 0}
+    orc_checked = {"partition": 0, "foreign": 0, "sums": 0, "sums_at_float_max": 0}
     first_fail = {}
     instr_broken = []
 
@@ -411,6 +490,30 @@ def run(chk: Check) -> int:
             continue
         if rec.steps:
             add(cfg, rec, orc, f"seed{chk.seed}/neginf{k}", mode)
+
+    # straggler stream: a large first request on the fresh learner, one or two of the first 17 abscissae (and, in the
+    # wide style, of the halves' first rules) arrive much later than everything else: the first rule stays incomplete
+    # while the halves / quarters already form the estimate, each with the error inherited from the first interval
+    # (float max / 2, / 4): the error sum is EXACTLY the largest float there, and must be reported as such
+    nstrag = 24 if chk.quick else 150
+    strag = {"runs": 0, "runs_with_err_sum_at_float_max": 0, "sum_checks_at_float_max": 0, "style": {}}
+    for k in range(nstrag):
+        rng = chk.rng("straggler", k)
+        cfg = I.draw_config(rng)
+        cfg["max_ivals"] = 1000
+        style = ["batch", "wide", "batch", "tasks"][k % 4]
+        try:
+            rec, orc = drive(cfg, rng=rng, mode="straggler", max_tells=420, max_ops=440, style=style)
+        except I.InstrumentationError as e:
+            instr_broken.append((f"straggler{k}", str(e)))
+            continue
+        if rec.steps:
+            add(cfg, rec, orc, f"seed{chk.seed}/straggler{k}", "straggler")
+            strag["runs"] += 1
+            bump(strag["style"], style)
+            strag["runs_with_err_sum_at_float_max"] += orc.checked["sums_at_float_max"] > 0
+            strag["sum_checks_at_float_max"] += orc.checked["sums_at_float_max"]
+    chk.extra["straggler_stream"] = strag
 
     # stress stream (oracle on every run, correspondence on a selection): small max_ivals, integrands that
     # refinement does not resolve (forced splits everywhere), one request per free task and one value at a time with
@@ -497,7 +600,10 @@ def run(chk: Check) -> int:
             f"oracle failures {len(chk.failures)}; totals {tot}")
     return chk.finish(
         rule="histories generated by driving the real IntegratorLearner like a parallel runner (modes runner/batch/deep/holdback, "
-             "ask sizes 1..50, 1..16 tasks, permuted/partial/delayed delivery, occasional foreign tells) on 18 integrand families "
+             "ask sizes 1..50, 1..16 tasks, permuted/partial/delayed delivery, occasional foreign tells; straggler stream: first request "
+             "of 40..140 points or 2..8 tasks with one or two of the first 17 abscissae (and of the halves' first rules) delivered much "
+             "later than everything else, igral/err compared with the sums after every tell, exactly where the error sum equals the "
+             "largest float) on 20 integrand families "
              "(smooth, peaked, step, kink, sqrt/inverse-sqrt singular, non-finite (nan, +inf, -inf) at isolated nodes and at sampled end points / midpoints, isolated deviations, divergent), "
              "tol 1e-10..1e-3, 8 bounds, max_ivals 3..1000; non-trivial = at least one tell that completed two or more "
              "(interval, depth) rules at once and at least one split; distinct by (integrand, bounds, op list)",
